@@ -798,6 +798,15 @@ class Interp:
             return getattr(obj, name)
         if isinstance(obj, (SFunc, ClassRef)) and name == 'name':
             return obj.name
+        if isinstance(obj, ClassRef) and obj.name == 'object' and \
+                name == '__sizeof__':
+            # object.__sizeof__(x): the basic size of the instance, >= 0
+            def basic_size(x):
+                from . import models
+                r = models.apply_uf('object.__sizeof__', (x,), 'Int')
+                self.path.assume(TInt.unwrap(r) >= 0)
+                return r
+            return Model('object.__sizeof__', basic_size)
         if isinstance(obj, FuncRef) and name == 'name' and self.spec:
             return obj.qualname         # (contracts only) which function
         if isinstance(obj, FuncRef) and name == 'closure_vars':
